@@ -80,6 +80,15 @@ Proof.
   unfold nm_eq in *. rewrite IH. apply H.
 Qed.
 
+Lemma create_parents_nm s name t : nm_eq s (fst (create_parents s name t)).
+Proof.
+  unfold create_parents. destruct (contains_byte name SLASH); [|reflexivity]. cbn [fst].
+  apply fold_nm. intros s0 a. destruct a as [|c0 a0]; [reflexivity|].
+  destruct (equal_fold (c0 :: a0) INBOX); [reflexivity|].
+  destruct (find_name s0 (c0 :: a0)); [reflexivity|].
+  destruct (create_mailbox_row s0 (c0 :: a0) t) as [[s'' ?]|] eqn:C; [|reflexivity]. now apply create_row_nm in C.
+Qed.
+
 Ltac am_tac :=
   match goal with
   | |- context [add_message ?a ?b ?c ?d] =>
@@ -110,13 +119,10 @@ Proof.
   - lia.
   - unfold op_create. destruct (trim_suffix n [SLASH]) as [|c r] eqn:En; cbn [fst]; [lia|].
     destruct (str_eqb (to_upper (c :: r)) INBOX); cbn [fst]; [lia|].
+    destruct (is_role_ns (c :: r)); cbn [fst]; [lia|].
     destruct (find_name s (c :: r)); cbn [fst]; [lia|].
-    match goal with |- context [create_mailbox_row ?x (c :: r) t] => set (s1 := x) end.
-    assert (H1 : nm_eq s s1).
-    { unfold s1. destruct (contains_byte (c :: r) SLASH); [|reflexivity].
-      apply fold_nm. intros s0 a. destruct (find_name s0 a); [reflexivity|].
-      destruct (create_mailbox_row s0 a t) as [[s'' ?]|] eqn:C; [|reflexivity]. now apply create_row_nm in C. }
-    destruct (create_mailbox_row s1 (c :: r) t) as [[s2 ?]|] eqn:C; cbn [fst].
+    pose proof (create_parents_nm s (c :: r) t) as H1.
+    destruct (create_mailbox_row (fst (create_parents s (c :: r) t)) (c :: r) t) as [[s2 ?]|] eqn:C; cbn [fst].
     + apply create_row_nm in C. unfold nm_eq in *. lia.
     + unfold nm_eq in *. lia.
   - unfold op_delete. destruct n as [|c0 n0]; cbn [fst]; [lia|].
@@ -124,36 +130,24 @@ Proof.
     destruct (find_name s (c0 :: n0)); cbn [fst]; [|lia]. destruct (children s (c0 :: n0)); cbn [fst]; [|lia].
     destruct (existsb _ _); cbn [fst]; simpl; lia.
   - unfold op_rename. destruct a as [|ca ra]; cbn [fst]; [lia|]. destruct b as [|cb rb]; cbn [fst]; [lia|].
+    destruct (is_role_ns (cb :: rb)); cbn [fst]; [lia|].
     destruct (str_eqb (to_upper (cb :: rb)) INBOX); cbn [fst]; [lia|].
     destruct (str_eqb (to_upper (ca :: ra)) INBOX).
     + unfold rename_inbox. destruct (find_name s (cb :: rb)); cbn [fst]; [lia|].
       destruct (find_name s INBOX); cbn [fst]; [|lia].
-      destruct (create_mailbox_row s (cb :: rb) t) as [[s1 nid]|] eqn:C; cbn [fst]; [|lia].
+      pose proof (create_parents_nm s (cb :: rb) t) as H0.
+      destruct (create_parents s (cb :: rb) t) as [s0 ok]. cbn [fst] in H0.
+      destruct (negb ok); cbn [fst]; [unfold nm_eq in *; lia|].
+      destruct (create_mailbox_row s0 (cb :: rb) t) as [[s1 nid]|] eqn:C; cbn [fst]; [|unfold nm_eq in *; lia].
       apply create_row_nm in C.
       destruct (reparent (set_next s1 nid (mb_next m)) (mb_id m) nid) eqn:R; cbn [fst].
       * apply reparent_nm in R. unfold nm_eq in *. simpl in R. lia.
       * unfold nm_eq in *. lia.
     + destruct (find_name s (ca :: ra)); cbn [fst]; [|lia]. destruct (find_name s (cb :: rb)); cbn [fst]; [lia|].
-      match goal with |- context [let '(s1, ok) := ?X in _] => set (pr := X) end.
-      assert (H1 : nm_eq s (fst pr)).
-      { unfold pr. destruct (contains_byte (cb :: rb) SLASH); [|reflexivity].
-        assert (G : forall l acc, nm_eq s (fst acc) ->
-                  nm_eq s (fst (fold_left (fun '(s', ok) p =>
-                     if negb ok then (s', ok) else
-                     match find_name s' p with
-                     | Some _ => (s', true)
-                     | None => match create_mailbox_row s' p t with
-                               | Some (s'', _) => (s'', true)
-                               | None => (s', match p with [] => false | _ => true end)
-                               end
-                     end) l acc))).
-        { induction l as [|x q IH]; intros [s' ok] Hacc; simpl; [exact Hacc|]. apply IH.
-          destruct (negb ok); [exact Hacc|]. destruct (find_name s' x); [exact Hacc|].
-          destruct (create_mailbox_row s' x t) as [[s'' ?]|] eqn:C; [|exact Hacc].
-          apply create_row_nm in C. simpl in *. unfold nm_eq in *. congruence. }
-        apply G. reflexivity. }
-      destruct pr as [s1 ok]. cbn [fst] in H1. destruct (negb ok); cbn [fst]; [unfold nm_eq in *; lia|].
-      destruct (rename_tx s1 (mb_id m) (ca :: ra) (cb :: rb)) eqn:R; cbn [fst]; [|unfold nm_eq in *; lia].
+      pose proof (create_parents_nm s (cb :: rb) t) as H1.
+      destruct (create_parents s (cb :: rb) t) as [s1 ok]. cbn [fst] in H1.
+      destruct (negb ok); cbn [fst]; [lia|].
+      destruct (rename_tx s1 (mb_id m) (ca :: ra) (cb :: rb)) eqn:R; cbn [fst]; [|lia].
       unfold rename_tx in R. destruct (rename_row s1 (mb_id m) (cb :: rb)) eqn:R1; [|discriminate].
       apply rename_row_nm in R1.
       assert (G : forall l acc s', (forall x, acc = Some x -> nm_eq s1 x) ->
